@@ -90,7 +90,7 @@ def _build_driver():
         with open(os.path.join(bd, "driver_main.ml"), "w") as f:
             f.write("open C03_model\n# 1 \"c03_driver.ml\"\n")
             f.write(open(driver).read())
-        cmd = "ocamlfind ocamlopt -O3 -w -a -package zarith -linkpkg c03_model.mli c03_model.ml c03e_model.mli c03e_model.ml driver_main.ml -o %s" % shlex.quote(exe)
+        cmd = "ocamlfind ocamlopt -O3 -w -a -package zarith,unix -linkpkg c03_model.mli c03_model.ml c03e_model.mli c03e_model.ml driver_main.ml -o %s" % shlex.quote(exe)
         rc, out = vlib.sh(cmd.replace("-O3 ", ""), cwd=bd, timeout=600)
         if rc != 0:
             raise vlib.CheckError("ocaml build of c03_driver failed:\n%s" % out[-3000:])
@@ -339,6 +339,7 @@ def run(tier, replay=None):
     cov["whole_ill_conditioned_miu_updates_followed"] = int(mk.get("whole_miu_followed", 0))
     cov["whole_passes_compared_decision_by_decision"] = int(mk.get("whole_passes", 0))
     cov["whole_fraction_fully_replayed"] = (round(int(mk.get("whole_runs", 0)) / max(1, int(mk.get("whole_recorded", 0))), 4))
+    cov["whole_runs_skipped_over_the_cpu_budget_of_8s"] = int(mk.get("whole_skipped_expensive", 0))
     cov["whole_runs_converged"] = int(mk.get("whole_converged", 0))
     cov["whole_runs_budget_exit"] = int(mk.get("whole_budget_exits", 0))
     cov["whole_appends_replayed"] = int(mk.get("whole_appends", 0))
@@ -358,6 +359,7 @@ def run(tier, replay=None):
     cov["impl_direct_failures"] = len(impl_fail)
     cov["ambiguous_skipped"] = int(mk.get("ambiguous_skipped", 0))
     cov["multistep_states_checked"] = int(mk.get("multistep_states", 0))
+    cov["multistep_stopped_at_ambiguous_decision"] = int(mk.get("multistep_stopped_at_ambiguous_decision", 0))
     cov["qp_answer_max_simplex_deviation"] = mk.get("simplex_worst")
     cov["aggregate_max_abs_sum_alpha_minus_1"] = mk.get("sigma_worst")
     cov["samples"] = ([l[:400] for l in lines if l.startswith("RUN ")][:3] + [l[:400] for l in lines if l.startswith("B ") and " APP " in l][:2]
